@@ -310,3 +310,40 @@ PROPS["C08"] = dict(
                  "segment size at least 2 x the width of a file-size field (otherwise max_nak_num underflows; the model marks that as a panic)"],
     unproved=["the 0-0 marker is queued only while the metadata is missing (it can stay in the queue after the metadata arrived; harness oracle wf_meta_marker checks its creation)"],
 )
+
+PROPS["C17"] = dict(
+    title="Limit faults fire after exactly the configured expirations; set handler runs",
+    module="Cfdp.Props.C17",
+    namespace="Cfdp.Loop",
+    theorems=["Cfdp.Timer.updateLoop_closed", "Cfdp.Timer.C17_limit_not_early", "Cfdp.Timer.C17_counter_history",
+              "C17_send_timers", "C17_recv_timers",
+              "Cfdp.Send.C17_send_ack_not_early", "Cfdp.Send.C17_send_inactivity_not_early",
+              "Cfdp.Recv.C17_recv_ack_not_early", "Cfdp.Recv.C17_recv_inactivity_not_early", "Cfdp.Recv.C17_recv_nak_not_early",
+              "Cfdp.Send.C17_send_handler", "Cfdp.Send.C17_send_default_cancel", "Cfdp.Send.C17_send_abandon",
+              "Cfdp.Recv.C17_recv_handler", "Cfdp.Recv.C17_recv_default_cancel", "Cfdp.Recv.C17_recv_abandon",
+              "Cfdp.Send.C17_send_ack_expiry", "Cfdp.Send.C17_send_eof_rearms", "Cfdp.Send.C17_send_progress_resets",
+              "Cfdp.Recv.C17_recv_ack_expiry", "Cfdp.Recv.C17_recv_progress_resets", "Cfdp.Recv.C17_recv_nak_progress"],
+    engines=["send", "recv"],
+    design="§6 C17",
+    technique="Lean 4 proofs: closed form and invariant of the Counter model, invariant over all event histories of both transaction models, step theorems for the fault handlers + differential correspondence",
+    level_text=("Kernel-checked. Counter: update() of a running counter adds k = (now - start) / timeout to the count (saturating at max), moves start on by k timeouts and "
+                "records an expiration iff k > 0 (updateLoop_closed); after any sequence of update / restart / reset / pause / queries at non-decreasing clock readings, "
+                "base + count x timeout <= start <= now, where base is the reading at which the count last started from zero (a ghost field of the model), so whenever "
+                "limit_reached() answers true at least max full timeouts have elapsed since then (C17_limit_not_early, C17_counter_history). Transactions: that invariant "
+                "holds for all three counters of the sender and of the receiver after every history of loop events (C17_send_timers / C17_recv_timers; ~50 preservation "
+                "lemmas, one per model function), hence the ACK-timer / inactivity / NAK parts of handle_timeout and send_naks raise PositiveLimitReached, "
+                "InactivityDetected, NakLimitReached (or Abandon in the cancelled phase) only max x timeout or more after the count started (C17_*_not_early; for the NAK "
+                "limit additionally only when no new data arrived since the previous NAK). Handlers: handle_fault records the condition, raises the Fault indication with "
+                "the current progress and then does exactly what handlerFor returns - Ignore continues, Cancel (also when nothing is configured), Suspend, Abandon = "
+                "Terminated with no PDU (C17_*_handler, _default_cancel, _abandon). One retransmission per expiry: an expiry below the limit only sets the EOF / Finished "
+                "flag, transmitting re-arms the timer and keeps the count (C17_*_ack_expiry, C17_send_eof_rearms); progress resets the counts (C17_*_progress_resets, "
+                "C17_recv_nak_progress). Tie to the code: send/recv engines compare every counter (count, paused, elapsed ns) after every call on a paused clock."),
+    level_note=RECV_SEND_NOTE + " The ghost field Counter.base is not part of the code and is not compared; the theorems' conclusions mention only clock readings. "
+               "The bounds are wall-clock bounds (time while suspended is not subtracted); the harness oracles check the un-suspended-time bounds on the real code.",
+    rule=("send + recv engines as in C04/C07: timeouts 1-5 s x limits 1-3, clock advances of 1 ms .. 30 s including just-before-expiry values (999 / 1000 / 1001 ms), blackouts "
+          "(wind-down rounds of timeouts without answers), every handler action for conditions 1, 4, 5, 6, 7, 8, 10. Oracles ack_not_early, inactivity_not_early (in un-suspended time, on the real code). "
+          "Non-trivial = a PDU was emitted or an indication raised."),
+    assumptions=["clock readings never decrease (tokio::time::Instant is monotonic)", "timeout > 0 for updateLoop_closed (with timeout 0 the Rust loop does not terminate)"],
+    unproved=["'never later': that the fault IS declared once max timeouts have elapsed needs the loop to wake up (liveness, C03/C02)",
+              "the bound in un-suspended time (the theorems bound wall-clock time; suspension pauses the counters, see C19)"],
+)
